@@ -348,6 +348,9 @@ class ArgumentParser(argparse.ArgumentParser):
                     default=config_path,
                     help="Path to a config file containing default values to use.",
                 )
+            else:
+                # Already added by an earlier call: it must show *this* call's value.
+                self._option_string_actions[f"--{config_path_name}"].default = config_path
 
         assert isinstance(args, list)
         self._preprocessing(args=args, namespace=namespace)
